@@ -15,9 +15,11 @@ def mk(rng, g, depth, nrows, mode, position, kinds=("num", "case", "str", "pred"
     if position in ("select", "both"):
         for k in range(rng.choice([1, 2])):
             kind = rng.choice(kinds)
-            r = {"num": 0.1, "case": 0.6, "str": 0.7, "pred": 0.9, "cmp": 2}[kind]
+            r = {"num": 0.1, "case": 0.6, "str": 0.7, "pred": 0.9, "cmp": 2, "parcmp": 2}[kind]
             if kind == "cmp":
                 e = {"t": "cmp", "op": rng.choice(g.cmpops()), "a": g.numatom(), "b": g.numatom()}
+            elif kind == "parcmp":      # (col OP literal) as a select item: evaluated through the compiled-program cache of the expression bridge
+                e = exprgen.par({"t": "cmp", "op": rng.choice(["!=", ">", ">=", "<", "<=", "!="]), "a": exprgen.col(rng.choice(exprgen.NUMCOLS)), "b": exprgen.num(rng.choice([0, 1, 2, 3, 5]))})
             elif r < 0.5:
                 e = g.numexpr(depth)
                 while e["t"] == "num":          # a bare numeric literal item is C05's business (known finding)
@@ -58,6 +60,7 @@ PROFILES = [  # (name, generator flags, positions, select-item kinds, share)   -
     ("case_top", dict(nulls=False, cases=False, nots=False, isnull_sel=False), ["select"], ("case",), 0.10),
     ("string_fn", dict(cases=False, nots=False), ["select"], ("str",), 0.08),
     ("select_cmp", dict(cases=False, nots=False, neq=False), ["select"], ("cmp",), 0.08),
+    ("select_parcmp", dict(nulls=False, cases=False, nots=False, paths=False), ["select"], ("parcmp",), 0.06),
     ("where_full", dict(nulls=False, cases=False, nots=False), ["where", "both"], ("num", "str"), 0.20),
     ("where_flat", dict(nulls=False, cases=False, nots=False, flat=True), ["where"], ("num",), 0.12),
     ("where_null", dict(cases=False, nots=False, neq=False, ors=False, eqcols=False, plus=False), ["where", "both"], ("num",), 0.20),
